@@ -18,6 +18,7 @@ EXPLANATION = (
     "job: intersection over all jobs, per-job difference, no presence test that conflates a missing key with a None value."
     ' (f) The schema and diff loops carry nothing between keys / jobs.'
     ' The index that is summarised walks the directory listing: _build_index never iterates ids handed in by the caller (membership would then be decided by the state point cache).'
+    " (h) `signac schema` / `signac diff`: an empty selection is not 'all jobs', --exclude-const reaches detect_schema unchanged together with the subset (C18-h)."
 )
 UNDECIDED = "Exactness for all corpora and the reconstruction property of diff_jobs are value-level and not decided."
 
